@@ -32,14 +32,24 @@ type EnvFam struct {
 	Cfg      string   // "none" | "unsafe" (passunsafeenv=BAR) | "both" (passunsafeenv=BAR, passenv=QUX)
 	Vals     []string // values besides the initial "1": subset of {"2", "-", "e"} ("-" = unset, "e" = set to the empty string)
 	WithPath bool
+	Boundary bool // add //p:g with pass_env=[FOO, GOO] and one compound edit that moves the FOO/GOO value boundary (C08's separator-less hash, end to end)
 	WithRm   bool
 	WithNoop bool
 }
 
-func (c EnvFam) Name() string { return "env-" + c.Cfg }
+func (c EnvFam) Name() string {
+	if c.Boundary {
+		return "env-" + c.Cfg + "-boundary"
+	}
+	return "env-" + c.Cfg
+}
 
 func (c EnvFam) Initial() Src {
-	return Src{"FOO": "1", "BAR": "1", "BAZ": "1", "QUX": "1", "PATH": "-", "marker": "1"}
+	s := Src{"FOO": "1", "BAR": "1", "BAZ": "1", "QUX": "1", "PATH": "-", "marker": "1"}
+	if c.Boundary {
+		s["FOO"], s["GOO"] = "a", "bGOO=c"
+	}
+	return s
 }
 
 func (c EnvFam) Edits(s Src) []Edit {
@@ -55,6 +65,17 @@ func (c EnvFam) Edits(s Src) []Edit {
 			n := s.Clone()
 			n[v] = val
 			es = append(es, Edit{Name: v + "=" + val, Src: n, Kind: "caller-env:" + v})
+		}
+	}
+	if c.Boundary {
+		// both variables change in one step; the concatenation FOO=<v>GOO=<w> that ruleHash writes stays the same
+		n := s.Clone()
+		if s["FOO"] == "a" && s["GOO"] == "bGOO=c" {
+			n["FOO"], n["GOO"] = "aGOO=b", "c"
+			es = append(es, Edit{Name: "FOO,GOO=shift-boundary", Src: n, Kind: "caller-env:FOO+GOO:boundary-shift"})
+		} else if s["FOO"] == "aGOO=b" && s["GOO"] == "c" {
+			n["FOO"], n["GOO"] = "a", "bGOO=c"
+			es = append(es, Edit{Name: "FOO,GOO=shift-boundary-back", Src: n, Kind: "caller-env:FOO+GOO:boundary-shift"})
 		}
 	}
 	if c.WithPath {
@@ -90,11 +111,17 @@ func (c EnvFam) Files(s Src) map[string]string {
 	var b strings.Builder
 	fmt.Fprintf(&b, "genrule(name=\"n\", outs=[\"n.out\"], cmd=%q)\n", fmt.Sprintf(logPfx, "//p:n")+envDumpCmd)
 	fmt.Fprintf(&b, "genrule(name=\"f\", outs=[\"f.out\"], pass_env=[\"FOO\"], cmd=%q)\n", fmt.Sprintf(logPfx, "//p:f")+envDumpCmd)
+	if c.Boundary {
+		fmt.Fprintf(&b, "genrule(name=\"g\", outs=[\"g.out\"], pass_env=[\"FOO\", \"GOO\"], cmd=%q)\n", fmt.Sprintf(logPfx, "//p:g")+envDumpCmd)
+	}
 	return map[string]string{"p/BUILD": b.String()}
 }
 
 func (c EnvFam) Targets(s Src) []Target {
 	ts := []Target{{"//p:n", []string{"plz-out/gen/p/n.out"}}, {"//p:f", []string{"plz-out/gen/p/f.out"}}}
+	if c.Boundary {
+		ts = append(ts, Target{"//p:g", []string{"plz-out/gen/p/g.out"}})
+	}
 	if o := s["only"]; o != "" {
 		for _, t := range ts {
 			if t.Label == o {
@@ -111,7 +138,7 @@ func (c EnvFam) CallerEnv(s Src) []string {
 	if s["marker"] == "1" {
 		env = append(env, "VERIF_MARKER=1")
 	}
-	for _, v := range []string{"FOO", "BAR", "BAZ", "QUX"} {
+	for _, v := range []string{"FOO", "BAR", "BAZ", "QUX", "GOO"} {
 		switch s[v] {
 		case "-", "":
 		case "e":
@@ -141,6 +168,9 @@ func (c EnvFam) Hashed(label string) []string {
 	if label == "//p:f" {
 		vs = append(vs, "FOO")
 	}
+	if label == "//p:g" {
+		vs = append(vs, "FOO", "GOO")
+	}
 	if c.Cfg == "both" {
 		vs = append(vs, "QUX")
 	}
@@ -161,7 +191,7 @@ func (c EnvFam) HashedSig(label string, s Src) string {
 	var sb strings.Builder
 	for _, v := range c.Hashed(label) {
 		val := s[v]
-		if v == "FOO" && (val == "-" || val == "e") {
+		if (v == "FOO" || v == "GOO") && (val == "-" || val == "e") {
 			val = ""
 		}
 		fmt.Fprintf(&sb, "%s=%s;", v, val)
@@ -174,6 +204,9 @@ func (c EnvFam) HashedSig(label string, s Src) string {
 // value), nothing else (no BAZ, no marker, default PATH).
 func (c EnvFam) RefSrc(label string, s Src, unsafeVals map[string]string) Src {
 	r := Src{"FOO": "-", "BAR": "-", "BAZ": "-", "QUX": "-", "PATH": "-", "marker": "0", "only": label}
+	if c.Boundary {
+		r["GOO"] = "-"
+	}
 	for _, v := range c.Hashed(label) {
 		r[v] = s[v]
 	}
